@@ -586,6 +586,10 @@ pub fn run_case(case: &Case) -> CaseResult {
     CaseResult { lines, flags }
 }
 
+/// Stack of the thread that round-trips the GraphInfo of a `nm-deep` case (KiB).
+#[cfg(feature = "graph_info")]
+const DEEP_SERDE_STACK_KIB: usize = 64;
+
 fn run_b(c: &CaseB, lines: &mut Vec<String>, flags: &mut CaseFlags) {
     let id = c.id;
     macro_rules! obs {
@@ -612,18 +616,42 @@ fn run_b(c: &CaseB, lines: &mut Vec<String>, flags: &mut CaseFlags) {
             }
         }
     }
-    // `nm-deep` family: build() is first run on a helper thread with a small stack (128 KiB); the clean
+    // `nm-deep` family: build() is first run on a helper thread with a small stack (48 KiB; the clean build needs less than 16 KiB); the clean
     // code needs a constant amount of stack whatever the depth of the graph. A stack overflow kills
     // the whole process: the CASE line, flushed before the run, is then the last line of the output.
     if c.family.starts_with("nm-deep") {
         let ops = c.ops.clone();
         let handle = std::thread::Builder::new()
-            .stack_size(128 * 1024)
+            .stack_size(48 * 1024)
             .spawn(move || matches!(build_ops(&ops).outcome, Outcome::Ok { .. }))
             .expect("spawn");
         match handle.join() {
             Ok(ok) => obs!("BD", if ok { "ok".to_string() } else { "failed".to_string() }),
             Err(_) => obs!("BD", "panicked".to_string()),
+        }
+        // the same for GraphInfo::from_graph and its serde round trip, on a small stack of their own
+        #[cfg(feature = "graph_info")]
+        {
+            let ops = c.ops.clone();
+            let handle = std::thread::Builder::new()
+                .stack_size(DEEP_SERDE_STACK_KIB * 1024)
+                .spawn(move || match build_ops(&ops).outcome {
+                    Outcome::Ok { graph, .. } => {
+                        let gi = fn_graph::GraphInfo::from_graph(&graph, |f: &Fun| f.fid);
+                        match serde_yaml_ng::to_string(&gi) {
+                            Ok(s) => serde_yaml_ng::from_str::<fn_graph::GraphInfo<u64>>(&s)
+                                .map(|gi2| gi2 == gi)
+                                .unwrap_or(false),
+                            Err(_) => false,
+                        }
+                    }
+                    _ => false,
+                })
+                .expect("spawn");
+            match handle.join() {
+                Ok(ok) => obs!("GD", if ok { "ok".to_string() } else { "failed".to_string() }),
+                Err(_) => obs!("GD", "panicked".to_string()),
+            }
         }
     }
     let built = build_ops(&c.ops);
